@@ -4,3 +4,6 @@ import TV.Properties.C18
 #print axioms TV.C18.C18_stop_complete
 #print axioms TV.C18.C18_waits_for_inflight
 #print axioms TV.C18.C18_start_signals_all
+#print axioms TV.C18.C18_retried_stop_waits
+#print axioms TV.C18.C18_retried_stop_progress
+#print axioms TV.C18.C18_expired_stop_cuts_nothing
